@@ -13,15 +13,17 @@ PID = 'C02'
 def plan(tier):
     if tier == 'quick':
         return [('client', 5), ('server', 4), ('server_gaps_tagged', 3), ('late_registry', 5), ('late_registry_server', 3),
-                ('client_micro_times', 4)], (30, 80)
+                ('client_micro_times', 4), ('client_decorated', 3)], (30, 80)
     return [('client', 8), ('server', 7), ('client_equal_times', 6), ('server_gaps_tagged', 6), ('late_registry', 8),
-            ('late_registry_server', 6), ('client_micro_times', 7)], (60, 800)
+            ('late_registry_server', 6), ('client_micro_times', 7), ('client_decorated', 5)], (60, 800)
 
 
 def run(run, tier, seed, kinds=KINDS, pid=PID):
     sut.bind()
     sut.ensure_protocols()
     variants, chain = plan(tier)
+    if pid == 'C02':
+        variants = variants + [('client_wrap_times', 4 if tier == 'quick' else 6)]
     for name, depth in variants:
         variant = hc.VARIANTS[name]
         res = explore.bfs(hc.make_expand(variant, kinds), depth, seed=seed,
